@@ -224,6 +224,14 @@ class Autoscaler(AutoscalerBase):
             upper_data[s] = self._scale_bound(
                 meta.get('upper', INF_BOUND), adder, scaler, size, is_lower=False)
 
+            if scaler is not None and np.any(np.asarray(scaler) < 0):
+                # A negative scaler reverses the order: the image of the upper bound is the
+                # lower bound in optimizer space and vice versa (unbounded stays unbounded).
+                neg = np.broadcast_to(np.asarray(scaler) < 0, (size,))
+                lo, up = lower_data[s].copy(), upper_data[s].copy()
+                lower_data[s] = np.where(neg, np.where(up >= INF_BOUND, -INF_BOUND, up), lo)
+                upper_data[s] = np.where(neg, np.where(lo <= -INF_BOUND, INF_BOUND, lo), up)
+
             if voi_type == 'constraint':
                 eq = meta.get('equals')
                 if eq is not None:
